@@ -14,7 +14,6 @@ import (
 	"net/http/httptest"
 	"os"
 	"runtime"
-	"runtime/pprof"
 	"sort"
 	"strings"
 	"sync"
@@ -161,7 +160,9 @@ func (e *env) close() {
 	e.sys.Close()
 }
 
-func seedTime(i int) time.Time { return time.Unix(0, qsys.T0).UTC().Add(time.Duration(i-10) * time.Second) }
+func seedTime(i int) time.Time {
+	return time.Unix(0, qsys.T0).UTC().Add(time.Duration(i-10) * time.Second)
+}
 
 // seed fills the store with the pre-state through the Store API and records its dump.
 func (e *env) seed() error {
@@ -274,6 +275,10 @@ func auditHeaders(p policy) [][2]string {
 		return [][2]string{{"X-Hookaido-Audit-Reason", "c15 check"}}
 	case "blank":
 		return [][2]string{{"X-Hookaido-Audit-Reason", "   "}}
+	case "reason512":
+		return [][2]string{{"X-Hookaido-Audit-Reason", strings.Repeat("r", 512)}}
+	case "reason513":
+		return [][2]string{{"X-Hookaido-Audit-Reason", strings.Repeat("r", 513)}}
 	case "full":
 		return [][2]string{{"X-Hookaido-Audit-Reason", "c15 check"}, {"X-Hookaido-Audit-Actor", "ci-bot"}, {"X-Request-ID", "req-1"}}
 	}
@@ -321,7 +326,13 @@ func (d caseDesc) rank() string {
 			pre = i
 		}
 	}
-	return fmt.Sprintf("%05d|%d|%02d|%s", d.size(), pol, pre, d.label())
+	odd := 0
+	for _, k := range d.Kinds {
+		if k != "valid_min" {
+			odd++
+		}
+	}
+	return fmt.Sprintf("%05d|%d|%d|%02d|%s", d.size(), odd+len(d.At), pol, pre, d.label())
 }
 
 func (d caseDesc) label() string {
@@ -524,7 +535,7 @@ func runCase(e *env, ps pathSpec, ks []kind, raw []byte, desc caseDesc, tl *tall
 	tl.codes[cause][verdict] = struct{}{}
 	if len(tl.samples) < 2 && n == 2 && (lowest == 1 || expectAccept) {
 		tl.samples = append(tl.samples, map[string]any{"case": desc.label(), "request": desc.Request, "status": status, "reply": desc.Reply,
-			"reference": map[string]any{"accept": expectAccept, "first_unacceptable": lowest, "reasons": reasonsAt(offending, lowest)},
+			"reference":         map[string]any{"accept": expectAccept, "first_unacceptable": lowest, "reasons": reasonsAt(offending, lowest)},
 			"queue_rows_before": len(e.preMsgs), "queue_rows_after": len(postMsgs)})
 	}
 
@@ -604,9 +615,13 @@ func checkSuccess(e *env, ps pathSpec, items []itemSpec, status int, jsonErr err
 		if wantTarget == "" {
 			wantTarget = rt.targets[0]
 		}
-		wantRecv := qsys.T0
+		// an omitted received_at is filled in by the implementation (the statement does not say with which clock);
+		// an omitted next_run_at equals received_at, as for an ingress message
+		wantRecv := m.ReceivedAt
 		if it.ReceivedAt != "" {
 			wantRecv = parseTS(it.ReceivedAt)
+		} else if m.ReceivedAt <= 0 {
+			wantRecv = qsys.T0
 		}
 		wantNext := wantRecv
 		if it.NextRunAt != "" {
@@ -643,8 +658,11 @@ func checkSuccess(e *env, ps pathSpec, items []itemSpec, status int, jsonErr err
 		if !sameMap(m.Headers, it.Headers) {
 			bad("headers", m.Headers, it.Headers)
 		}
-		if !sameMap(m.Trace, it.Trace) {
-			bad("trace", m.Trace, it.Trace)
+		for k, v := range it.Trace {
+			if w, ok := m.Trace[k]; !ok || w != v {
+				bad("trace", m.Trace, it.Trace)
+				break
+			}
 		}
 		if m.DeadReason != ingressShape.DeadReason || m.Lease != ingressShape.Lease || m.LeaseUntil != ingressShape.LeaseUntil {
 			bad("lease/dead fields", fmt.Sprint(m.DeadReason, m.Lease, m.LeaseUntil), "as an ingress message")
@@ -989,16 +1007,12 @@ func runProbes(worker int, backend string, c *collector) {
 
 func buildUnits(r *runner.Run) []unit {
 	var us []unit
-	backends := []string{"memory", "sqlite"}
-	if v := os.Getenv("C15_DEBUG_BACKEND"); v != "" {
-		backends = []string{v}
-	}
-	for _, backend := range backends {
+	for _, backend := range []string{"memory", "sqlite"} {
 		for _, pre := range preStates {
 			for _, pol := range policies {
 				for _, ps := range paths {
 					u := unit{backend: backend, pre: pre, pol: pol, path: ps}
-					u.triples = r.Thorough() && !ps.Reduced && requestOK(pol, ps)
+					u.triples = r.Thorough() && !ps.Reduced && !pol.PairsOnly && requestOK(pol, ps)
 					u.weight = u.count()
 					if backend == "sqlite" {
 						u.weight *= 2
@@ -1122,13 +1136,6 @@ func TestCheck(t *testing.T) {
 	}
 
 	t0 := time.Now()
-	if pf := os.Getenv("C15_DEBUG_PROF"); pf != "" {
-		f, _ := os.Create(pf)
-		pprof.StartCPUProfile(f)
-		runtime.SetMutexProfileFraction(5)
-		runtime.SetBlockProfileRate(10000)
-		defer func() {}()
-	}
 	units := buildUnits(r)
 	workers := runtime.NumCPU()
 	if workers > 16 {
@@ -1165,15 +1172,6 @@ func TestCheck(t *testing.T) {
 	close(ch)
 	wg.Wait()
 	r.Set("enumeration_wall_s", time.Since(t0).Seconds())
-	if pf := os.Getenv("C15_DEBUG_PROF"); pf != "" {
-		pprof.StopCPUProfile()
-		f, _ := os.Create(pf + ".mutex")
-		pprof.Lookup("mutex").WriteTo(f, 0)
-		f.Close()
-		f, _ = os.Create(pf + ".block")
-		pprof.Lookup("block").WriteTo(f, 0)
-		f.Close()
-	}
 
 	for _, msg := range c.infra {
 		r.Infra("%s", msg)
@@ -1202,9 +1200,13 @@ func TestCheck(t *testing.T) {
 		keys = append(keys, k)
 	}
 	ordering := func(k string) bool { return strings.HasPrefix(k, "item_index:") && strings.Contains(k, "-before-") }
+	defaultPolicy := func(k string) bool { return c.findings[k].desc.Policy == policies[0].Name }
 	sort.Slice(keys, func(i, j int) bool {
 		if ordering(keys[i]) != ordering(keys[j]) {
 			return !ordering(keys[i])
+		}
+		if defaultPolicy(keys[i]) != defaultPolicy(keys[j]) {
+			return defaultPolicy(keys[i])
 		}
 		return keys[i] < keys[j]
 	})
